@@ -232,7 +232,7 @@ def run(run):
                 'non-trivial = the corrupted bytes differ from every valid frame of the stream (a corruption was applied)')
     run.assumptions = ['reference receivers and bitwise CRC/LRC in vmon/spec/adu.py', 'justification only: missing deliveries are C06/C11 matters',
                        'TCP: after the first frame whose MBAP length disagrees with its PDU nothing later in the stream is judged']
-    nframes = run.scale(36, 400)
+    nframes = run.scale(36, 6000)
     idx = 0
     for framing in FRAMINGS:
         for d in (REQ, RSP):
